@@ -214,7 +214,7 @@ int main(int argc,char **argv)
 		process_backend=true;
 		for(int e=0;e<execs;e++) {
 			reset();
-			tr.line(vt::J().s("e","Pressure").str());       // from here on the named shared-memory deviations are legal
+			tr.line(vt::J().s("e","Pressure").i("mem",1024*1024).str());       // from here on the named shared-memory deviations are legal
 			for(int n=0;n<nops;n++) {
 				unsigned c=R(100);
 				int now=(int)(vt::fake_now-vt::clock_base);
@@ -261,7 +261,7 @@ int main(int argc,char **argv)
 		std::string w;
 		while(std::cin>>w) {
 			if(w=="store") { int k,n,dl; std::cin>>k>>dl>>n; std::vector<int> ts(n); for(int i=0;i<n;i++) std::cin>>ts[i]; op_store(k,ts,dl); }
-			else if(w=="pressure") { tr.line(vt::J().s("e","Pressure").str()); }
+			else if(w=="pressure") { tr.line(vt::J().s("e","Pressure").i("mem",1024*1024).str()); }
 			else if(w=="bigstore") { int k,dl; long size; std::cin>>k>>dl>>size; op_bigstore(k,dl,size); }
 			else if(w=="fetch") { int k; std::cin>>k; op_fetch(k); }
 			else if(w=="rise") { int k; std::cin>>k; op_rise(k); }
